@@ -707,6 +707,10 @@ type NumCase struct {
 	Samples   []pbt.S
 	Reverse   bool
 	Quantiles []float64
+	// AnalyzeAt: after this many samples the full comparison (incl. Analyze(),
+	// which orders the kept values in place) runs on the prefix, as the render
+	// callback of `rare analyze -x` does every 100 ms while samples keep coming.
+	AnalyzeAt []int
 }
 
 var numPool = []string{"0", "1", "-1", "2", "2", "3", "0.5", "-0.5", "1e3", "1000000", "-1e9", "123456789.125", "1e-9", "7", "7", "7", "1e15", "42", "+4", "0010", "abc", "", " 1", "1,0", "--1"}
@@ -716,7 +720,11 @@ func checkNum(c NumCase) error {
 	agg := aggregation.NewNumericalAggregator(&cfg)
 	var vals []float64
 	var errs uint64
-	for _, s := range c.Samples {
+	at := map[int]bool{}
+	for _, k := range c.AnalyzeAt {
+		at[k] = true
+	}
+	for i, s := range c.Samples {
 		agg.Sample(string(s))
 		v, err := strconv.ParseFloat(string(s), 64)
 		if err != nil {
@@ -724,7 +732,16 @@ func checkNum(c NumCase) error {
 		} else {
 			vals = append(vals, v)
 		}
+		if at[i+1] && i+1 < len(c.Samples) {
+			if err := verifyNum(c, agg, vals, errs); err != nil {
+				return fmt.Errorf("after %d of %d samples (intermediate analysis): %v", i+1, len(c.Samples), err)
+			}
+		}
 	}
+	return verifyNum(c, agg, vals, errs)
+}
+
+func verifyNum(c NumCase, agg *aggregation.MatchNumerical, vals []float64, errs uint64) error {
 	if agg.Count() != uint64(len(vals)) {
 		return fmt.Errorf("Count=%d, fold gives %d", agg.Count(), len(vals))
 	}
@@ -827,7 +844,7 @@ func checkNum(c NumCase) error {
 func TestNumerical(t *testing.T) {
 	pbt.Run(t, pbt.Spec[NumCase]{
 		Property: "C07", Name: "numerical",
-		Rule:   "0..80 samples from a pool with repeats, negatives, fractions, huge values and unparsable strings (NaN/Inf/hex spellings excluded by construction); count exact; mean/std-dev vs two-pass big.Float within 1e-9/1e-7 * max(1,|x|max); median, quantile(p in [0,1] incl. 0 and 1), mode are order statistics (#{x<q} <= p*n <= #{x<=q}); forward and reversed analysis; non-trivial: >=4 numeric samples with >=2 distinct values",
+		Rule:   "0..80 samples from a pool with repeats, negatives, fractions, huge values and unparsable strings (NaN/Inf/hex spellings excluded by construction); count exact; mean/std-dev vs two-pass big.Float within 1e-9/1e-7 * max(1,|x|max); median, quantile(p in [0,1] incl. 0 and 1), mode are order statistics (#{x<q} <= p*n <= #{x<=q}); forward and reversed analysis; 0-3 intermediate analyses (Analyze() orders the kept values in place) followed by more samples, some with monotone tails; non-trivial: >=4 numeric samples with >=2 distinct values",
 		Budget: pbt.Budget{Quick: 30000, Thorough: 1000000},
 		Gen: func(t *rapid.T) NumCase {
 			n := rapid.IntRange(0, 80).Draw(t, "n")
@@ -841,6 +858,26 @@ func TestNumerical(t *testing.T) {
 			}
 			for i := 0; i < rapid.IntRange(1, 4).Draw(t, "nq"); i++ {
 				c.Quantiles = append(c.Quantiles, rapid.SampledFrom([]float64{0, 0.01, 0.25, 0.5, 0.75, 0.9, 0.99, 0.999, 1}).Draw(t, "q"))
+			}
+			if n > 1 {
+				for i := 0; i < rapid.IntRange(0, 3).Draw(t, "nAnalyze"); i++ {
+					c.AnalyzeAt = append(c.AnalyzeAt, rapid.IntRange(1, n-1).Draw(t, "analyzeAt"))
+				}
+			}
+			// runs of non-decreasing / non-increasing samples after an analysis point
+			if len(c.AnalyzeAt) > 0 && rapid.IntRange(0, 2).Draw(t, "monotoneTail") == 0 {
+				from := c.AnalyzeAt[0]
+				up := rapid.Bool().Draw(t, "up")
+				base := rapid.IntRange(-5, 50).Draw(t, "base")
+				for i := from; i < n; i++ {
+					step := rapid.IntRange(0, 3).Draw(t, "step")
+					if up {
+						base += step
+					} else {
+						base -= step
+					}
+					c.Samples[i] = pbt.S(strconv.Itoa(base))
+				}
 			}
 			return c
 		},
@@ -860,6 +897,8 @@ func TestNumerical(t *testing.T) {
 				l.Add(q == 0, "quantile-0")
 			}
 			l.Add(c.Reverse, "reverse")
+			l.Add(len(c.AnalyzeAt) > 0, "interleaved-analysis")
+			l.Add(len(c.AnalyzeAt) > 0 && c.Reverse, "interleaved-analysis+reverse")
 			return k >= 4 && len(d) >= 2, l
 		},
 	})
@@ -915,7 +954,7 @@ func maxi(a, b string) string {
 
 var groupPool = []struct {
 	name, expr string
-	f    func(parts []string, whole string) string
+	f          func(parts []string, whole string) string
 }{
 	{"g1", "{1}", func(p []string, w string) string { return part(p, 1) }},
 	{"g2", "{2}", func(p []string, w string) string { return part(p, 2) }},
@@ -931,7 +970,9 @@ var colPool = []colDef{
 	{"last", "{2}", "", func(cur string, p []string, w string, get func(string) string) string { return part(p, 2) }},
 	{"cc", "{sumi {.} {count}}", "0", func(cur string, p []string, w string, get func(string) string) string { return sumi(cur, get("count")) }},
 	{"cat", "{.}{1};", "", func(cur string, p []string, w string, get func(string) string) string { return cur + part(p, 1) + ";" }},
-	{"ref", "{sum3}/{max3}", "", func(cur string, p []string, w string, get func(string) string) string { return get("sum3") + "/" + get("max3") }},
+	{"ref", "{sum3}/{max3}", "", func(cur string, p []string, w string, get func(string) string) string {
+		return get("sum3") + "/" + get("max3")
+	}},
 }
 
 func checkAcc(c AccCase) error {
